@@ -20,6 +20,12 @@ func TestVerifDriver(t *testing.T) {
 		runC07(em, r)
 	case "C06":
 		runC06(em, r)
+	case "C19":
+		runC19(em, r)
+	case "C18":
+		runC18(em, r)
+	case "C17":
+		runC17(em, r)
 	case "C10":
 		runC10(em, r)
 	case "C11":
